@@ -47,7 +47,8 @@ ASSUMPTIONS = [
 ]
 OBLIGATIONS = {"adapter-call": 300, "variant:contiguous": 50, "variant:strided": 50,
                "variant:fortran": 10, "variant:int": 30, "variant:pandas": 30,
-               "variant:grid": 10, "variant:nan": 30, "variant:nanrow": 30, "repeat-call": 100, "replayed-workload": 5}
+               "variant:grid": 10, "variant:nan": 30, "variant:nanrow": 30,
+               "history:transform": 50, "history:output-buffer": 1, "repeat-call": 100, "replayed-workload": 5}
 ANCHORED = ["hydrodiy.stat.metrics.crps", "hydrodiy.stat.metrics.anderson_darling_test",
             "hydrodiy.stat.metrics.dscore", "hydrodiy.stat.sutils.pareto_front",
             "hydrodiy.stat.sutils.lstsq", "hydrodiy.stat.armodels.armodel_sim",
@@ -362,10 +363,71 @@ def record(ctx, label):
     st.violations.clear()
 
 
+def run_histories(ctx):
+    """'The same call twice returns the same result' over call histories: the second
+    call comes after *other* read-only calls on the same object, or after the same
+    output buffer has served another call."""
+    from hydrodiy.stat import transform
+    from hydrodiy.gis import gutils
+    from hyverif.props.c12 import TRANSFORMS, SETUP, ASSIGN
+    from hyverif.core import same_result
+    import itertools
+    rng = np.random.default_rng(ctx.seed + 17)
+    for tn in TRANSFORMS:
+        if tn == "Softmax":
+            continue
+        x = np.array([0.1, 0.5, 0.9, 0.3]) if tn == "Logit" else \
+            np.array([0.05, 0.5, 1.5, 2.5])
+        for order in itertools.permutations(("jacobian", "forward", "backward")):
+            t = transform.get_transform(tn, **SETUP.get(tn, {}))
+            t.forward(x.copy())                       # used once with its defaults
+            for (k, val) in ASSIGN.get(tn, [])[:2]:   # then re-parameterised
+                try:
+                    t[k] = val
+                except Exception:
+                    pass
+            first = {}
+            for rnd in range(2):
+                for meth in order:
+                    arg = x.copy()
+                    if meth == "backward":
+                        arg = np.asarray(t.forward(x.copy()), dtype=float)
+                    r = np.asarray(getattr(t, meth)(arg), dtype=float)
+                    ctx.api(f"Transform.{meth}")
+                    if meth in first:
+                        ctx.tag("history:transform")
+                        ctx.evaluated()
+                        ctx.check("history.same-call-same-result",
+                                  same_result(r, first[meth], 1e-13),
+                                  f"stat.transform.{tn}.{meth}|result-depends-on-call-history",
+                                  {"kind": "history", "class": tn, "order": list(order)},
+                                  lambda: {"first": first[meth].tolist(),
+                                           "later": r.tolist(), "order": list(order)})
+                    else:
+                        first[meth] = r
+    # a caller-supplied answer vector that has served another call before
+    big = np.array([[-10., -10.], [10., -10.], [10., 10.], [-10., 10.]])
+    small = np.array([[0., 0.], [1., 0.], [1., 1.], [0., 1.]])
+    pts = rng.uniform(-8, 8, size=(300, 2))
+    fresh = np.asarray(gutils.points_inside_polygon(pts.copy(), small.copy())).copy()
+    buf = np.zeros(len(pts), dtype=np.int32)
+    gutils.points_inside_polygon(pts.copy(), big.copy(), inside=buf)
+    again = np.asarray(gutils.points_inside_polygon(pts.copy(), small.copy(), inside=buf))
+    ctx.api("points_inside_polygon", 3)
+    ctx.tag("history:output-buffer")
+    ctx.evaluated()
+    ctx.check("history.buffer-reused", bool(np.array_equal(again, fresh)),
+              "gis.gutils.points_inside_polygon|result-depends-on-previous-use-of-buffer",
+              {"kind": "history", "what": "inside-buffer"},
+              lambda: {"inside_fresh": int(fresh.sum()), "inside_reused": int(again.sum())})
+
+
 def run(ctx):
     from hyverif.monitors import purity
     np.seterr(all="ignore")
     warnings.simplefilter("ignore")
+    if ctx.shard == 0 or ctx.replaying:
+        run_histories(ctx)
     wrapped = purity.install()
     ctx.info["wrapped_callables"] = len(wrapped)
     st = purity.STATE
